@@ -9,9 +9,9 @@
 namespace {
 using namespace vf;
 
-struct Plan { int synSeeds; int mutPerSample; int apiModels; };
-Plan plan() { return g_cfg.tier ? Plan{6, 4, 200} : Plan{1, 1, 48}; }
-struct Layout { size_t nReal, nMut, nSyn, nApi, nWit; size_t total() const { return nReal + nMut + nSyn + nApi + nWit; } };
+struct Plan { int synSeeds; int mutPerSample; int apiModels; int edited; };
+Plan plan() { return g_cfg.tier ? Plan{6, 4, 200, 3000} : Plan{1, 1, 48, 300}; }
+struct Layout { size_t nReal, nMut, nSyn, nApi, nWit, nEdit; size_t total() const { return nReal + nMut + nSyn + nApi + nWit + nEdit; } };
 const std::vector<Sample>& witnesses() {
 	static std::vector<Sample> w;
 	static bool done = false;
@@ -30,6 +30,7 @@ Layout layout() {
 	l.nSyn = typeDB().names.size() * (size_t)NVERS * (size_t)p.synSeeds;
 	l.nApi = (size_t)p.apiModels;
 	l.nWit = witnesses().size();
+	l.nEdit = (size_t)p.edited;
 	return l;
 }
 
@@ -72,6 +73,16 @@ std::multiset<std::string> shapeRecords(const std::vector<std::string>& logical)
 	return out;
 }
 
+// a skin whose bone list has an empty slot (a bone node deleted through DeleteBlock/DeleteNode, or a file that stores one)
+bool hasEmptyBoneSlot(NifFile& n) {
+	auto& hdr = n.GetHeader();
+	for (uint32_t i = 0; i < hdr.GetNumBlocks(); i++)
+		if (auto bc = hdr.GetBlock<NiBoneContainer>(i))
+			for (auto& r : bc->boneRefs)
+				if (r.IsEmpty()) return true;
+	return false;
+}
+
 void checkModel(const std::function<bool(NifFile&)>& make, const std::string& source, const std::string& coverKey) {
 	for (int mode = 0; mode < 2; mode++) {
 		bool raw = mode == 0;
@@ -82,6 +93,9 @@ void checkModel(const std::function<bool(NifFile&)>& make, const std::string& so
 		R_eval();
 		std::string vclass = verClass(n.GetHeader().GetVersion());
 		bool indexStrings = n.GetHeader().GetVersion().File() >= V20_1_0_3;
+		// tag for the recorded finding about bone/bone-data pairing (see known_findings.json)
+		bool holes = hasEmptyBoneSlot(n);
+		auto holeTag = [&](const std::string& cls) { return cls + (holes && (cls == "bones" || cls == "bone" || cls == "globalToSkin" || cls == "calcGlobalToSkin") ? "+empty-bone-slot" : ""); };
 		R_phase("battery0");
 		// Some read-only queries cache derived state lazily (e.g. GetShapePartitions triangulates strip partitions), which is
 		// not an effect of saving: the baseline is the second run of the battery.
@@ -125,7 +139,7 @@ void checkModel(const std::function<bool(NifFile&)>& make, const std::string& so
 			}
 		if (raw) {
 			if (B0.logical != B[0].logical)
-				R_viol("query-before-after-raw", vclass + "/" + diffClass(B0.logical, B[0].logical), source + ": logical queries before vs after the first raw save: " + firstDiff(B0.logical, B[0].logical));
+				R_viol("query-before-after-raw", vclass + "/" + holeTag(diffClass(B0.logical, B[0].logical)), source + ": logical queries before vs after the first raw save: " + firstDiff(B0.logical, B[0].logical));
 		}
 		else {
 			// default save may prune unreferenced shapes / nodes and re-order: every shape that survives must answer as before
@@ -147,7 +161,7 @@ void checkModel(const std::function<bool(NifFile&)>& make, const std::string& so
 						line = firstDiff(la, lb);
 						break;
 					}
-				R_viol("query-before-after-default", vclass + "/" + cls, source + ": a surviving shape answers differently after the first default save: " + line);
+				R_viol("query-before-after-default", vclass + "/" + holeTag(cls), source + ": a surviving shape answers differently after the first default save: " + line);
 				break;
 			}
 		}
@@ -207,6 +221,46 @@ void run(size_t idx) {
 		return;
 	}
 	idx -= l.nSyn;
+	if (idx >= l.nApi + l.nWit) {
+		// edited models (same generator as C01): the in-memory model after the edits is saved three times
+		size_t e = idx - l.nApi - l.nWit;
+		uint64_t seed = mix(g_cfg.seed, 0xED1702 + e);
+		std::string src;
+		checkModel(
+			[&](NifFile& n) {
+				Rng rng(seed);
+				int kind = (int)(e % 4);
+				if (kind == 0) { auto& s = realSamples()[(e / 4) % realSamples().size()]; if (loadNif(n, s.bytes) != 0) return false; src = "edited real:" + s.name; }
+				else if (kind == 1) { ApiModel m = buildApiModel(seed, (int)e); if (!m.ok || loadNif(n, m.bytes) != 0) return false; src = "edited api:" + m.desc; }
+				else {
+					const TypeDB& db = typeDB();
+					const std::string& focus = db.names[rng.below((uint32_t)db.names.size())];
+					const VerInfo& v = VERS[rng.below((uint32_t)NVERS)];
+					SynthOpts so;
+					so.gen.maxCount = 2 + (int)rng.below(3);
+					so.extraBlocks = 8;
+					SynthFile S = synthFile(v, focus, seed, so);
+					if (!S.ok) return false;
+					NifFile pre;
+					if (loadNif(pre, S.bytes) != 0) return false;
+					if (loadNif(n, saveNif(pre, true)) != 0) return false;   // normal form, see above
+					src = fmt("%s syn:%s:%s:seed=%llu", kind == 2 ? "reversed" : "edited", v.n, focus.c_str(), (unsigned long long)seed);
+				}
+				if (n.HasUnknown()) return false;
+				if (kind == 2) {
+					uint32_t nb = n.GetHeader().GetNumBlocks();
+					std::vector<uint32_t> perm(nb);
+					for (uint32_t i = 0; i < nb; i++) perm[i] = i == 0 ? 0 : nb - i;
+					n.GetHeader().SetBlockOrder(perm);
+				}
+				else src += " edits: " + applyRandomEdits(n, rng, 2 + (int)rng.below(5));
+				R_caseDesc(src.substr(0, 550));
+				return true;
+			},
+			fmt("edited:%llu", (unsigned long long)seed), fmt("edited:%llu", (unsigned long long)seed));
+		R_caseDesc(src.substr(0, 550));
+		return;
+	}
 	if (idx >= l.nApi) {
 		auto& w = witnesses()[idx - l.nApi];
 		R_caseDesc("witness:" + w.name);
@@ -235,7 +289,7 @@ void run(size_t idx) {
 }
 
 MonReg reg({"C02", "exploration",
-			"inputs as C01 (52 real files, float-mutated variants, one synthesised file per block type x version x seed, API-built in-memory models incl. skin/partitions/segments). "
+			"inputs as C01 (52 real files, float-mutated variants, one synthesised file per block type x version x seed, API-built in-memory models incl. skin/partitions/segments, models after random API edit sequences incl. detached sub-graphs, reversed block order). "
 			"Per input and per option set {raw, default}: one NifFile object is saved three times with the hook trace installed; oracle 1: the canonical dumps of save 1, 2, 3 (per block: "
 			"type, payload with reference fields replaced by the identity of the target object and string indices by their text, in file order) are equal; oracle 2: the ~60-call query "
 			"battery answers identically after save 1, 2, 3; oracle 3: the logical part of the battery (geometry, skin, textures, segments, partitions, transforms; no block indices or "
